@@ -73,8 +73,12 @@ def n_measured_quantities(desc, sim):
 @st.composite
 def finite_case(draw):
     sim = draw(st.sampled_from(["PF", "PF", "P", "P", "G", "F"]))
-    desc = draw(aprogs.adaptive_program(sim, allow_postselect=False, final_measure=True))
-    shots = draw(st.sampled_from([1, 2, 3, 7, 50]))
+    desc = draw(aprogs.adaptive_program(sim, allow_postselect=False, final_measure=True,
+                                        imperfect=True))
+    # every N in 1..128, with extra weight on shot counts for which k/N*N is not exact in
+    # floating point for many k (22, 23, 26, 49, 98, ...)
+    shots = draw(st.one_of(st.sampled_from([1, 2, 3, 7, 22, 23, 26, 49, 49, 50, 98, 100]),
+                           st.integers(1, 128)))
     return {"desc": desc, "shots": shots, "seed": draw(st.integers(1, 2**31))}
 
 
@@ -99,7 +103,10 @@ def prop_finite(case, ctx):
     nmeas = sum(1 for s in desc["steps"] if s["k"] == "measure")
     adaptive = any(s.get("when") or s.get("pexpr") for s in desc["steps"])
     sim = desc["sim"]
-    cl = [f"fin_{sim}", f"shots_{shots}"] + (["adaptive"] if adaptive else [])
+    cl = [f"fin_{sim}", "shots_" + (str(shots) if shots in (1, 2, 3, 7, 49, 50) else
+                                    "other")] + (["adaptive"] if adaptive else [])
+    if any(s_.get("m") == "ImperfectParticleNumberMeasurement" for s_ in desc["steps"]):
+        cl.append("imperfect_detector")
     ctx.case(case, (nmeas >= 2 or adaptive) and len(res.branches) >= 2, cl)
     samples = res.samples
     if len(samples) != shots:
@@ -147,10 +154,12 @@ def prop_finite(case, ctx):
 @st.composite
 def exact_case(draw):
     sim = draw(st.sampled_from(["PF", "PF", "P"]))
-    desc = draw(aprogs.adaptive_program(sim, allow_postselect=(sim == "PF"), final_measure=True))
+    desc = draw(aprogs.adaptive_program(sim, allow_postselect=(sim == "PF"), final_measure=True,
+                                        imperfect=True))
     # PF final measurement must be a particle-number measurement for shots=None
     for s in desc["steps"]:
-        if s["k"] == "measure":
+        if s["k"] == "measure" and s["m"] not in ("ParticleNumberMeasurement",
+                                                  "ImperfectParticleNumberMeasurement"):
             s["m"] = "ParticleNumberMeasurement"
             s["p"] = {}
     split_seed = draw(st.integers(0, 2**16))
